@@ -303,3 +303,27 @@ PROPS["C11"] = dict(
         assumptions=["SIGKILL models process death; the OS page cache survives", "HDF5's flock-based exclusion is what makes 'another process can open ReadWrite' observable"],
     ),
 )
+
+PROPS["C15"] = dict(
+    level="model_checking",
+    budget_s=dict(quick=150, thorough=1800),
+    parts=[dict(name="frames", bin="C15", flavour="plain")],
+    manifest=dict(
+        engine="E1", design_ref="5 / C15",
+        technique="exhaustive DFS over write/resize/reopen sequences per column schema on the real library, replayed on fresh files, against a grid reference model; all read paths compared on every trace",
+        text="For each of 17 column schemas (all single-type schemas of 1 and 2 columns over the 7 cell types, two mixed 3-column and one mixed 8-column schema with units) and two "
+             "seeds (empty frame, 2 written rows) every sequence up to depth 3/2 (quick) or 4/3 (thorough) over rows(n), writeRow, writeCell, writeCells by name/index, writeColumn "
+             "with offset/count inside, touching and past the end, and REOPEN is replayed on a fresh file. After the last step every cell is read through readRow, readCell by index "
+             "and name, readCells, and readColumn in 7 variants, through a handle kept since creation and a fresh one, and compared with the grid model (doubles bitwise, sentinel-"
+             "pre-filled buffers); schema getters are compared too. Past-the-end column writes must throw and change nothing.",
+        note="Values of a foreign type and rows with too few/many values are outside the statement and not generated. Bool columns go through row/cell access only "
+             "(std::vector<bool> has no data())."),
+    evidence=dict(
+        keys=dict(states=("distinct", "states"), transitions=("count", "transitions"), traces_validated_against_impl=("count", "traces"),
+                  evaluations=("count", "read_calls"), distinct_nontrivial=("distinct", "states")),
+        rule="DFS over all sequences of the schema's step alphabet (14-41 steps); every prefix is a trace replayed on a fresh file; states = distinct (schema, rows x columns "
+             "written/unwritten mask) model states.",
+        bound=dict(quick="depth 3 from the empty frame, depth 2 from the 2-row seed", thorough="depth 4 / depth 3"),
+        assumptions=_E1_ASSUME,
+    ),
+)
